@@ -128,7 +128,7 @@ def strategy(draw):
             ops.append(dict(op="mutate", obj=0, which=draw(st.integers(0, 9)), value=draw(gen.floats(0.05, 0.95)), index=draw(st.integers(0, 3)), mutable_only=True))
         ops.append(dict(op="fresh-default", cls=cls))
     for _ in range(draw(st.integers(3, 10))):
-        kind = draw(gen.choice(["create", "create", "mutate", "mutate", "assign", "saveload", "saveread", "process", "fresh-default"])) if n_live else "create"
+        kind = draw(gen.choice(["create", "create", "mutate", "mutate", "assign", "saveload", "saveread", "process", "fresh-default", "loadinto"])) if n_live else "create"
         if kind == "create":
             ops.append(dict(op="create", cls=draw(gen.choice(CLASSES)), mode=draw(st.sampled_from(["defaults", "args", "args", "shared-args"])),
                             arg=draw(st.integers(0, nargs - 1))))
@@ -137,6 +137,10 @@ def strategy(draw):
             ops.append(dict(op="fresh-default", cls=draw(gen.choice(CLASSES))))
         elif kind in ("saveload", "saveread"):
             ops.append(dict(op=kind, obj=draw(st.integers(0, n_live - 1))))
+            n_live += 1
+        elif kind == "loadinto":
+            ops.append(dict(op="loadinto", obj=draw(st.integers(0, n_live - 1)), target=draw(st.integers(0, n_live - 1)),
+                            src_fft=draw(st.sampled_from(["keep", "empty", "norm", "none"]))))
             n_live += 1
         elif kind == "process":
             ops.append(dict(op="process", obj=draw(st.integers(0, n_live - 1))))
@@ -316,6 +320,39 @@ def check_case(case):
                 if pending_mutation:
                     nontrivial = True
                 check_all(step)
+            elif op["op"] == "loadinto":
+                # load a saved object into an *existing* (already used) object of the same class
+                i = op["obj"] % len(live)
+                src = live[i]
+                if hasattr(src, "fft_settings") and op["src_fft"] != "keep":
+                    src.fft_settings = {"empty": {}, "norm": {"norm": "ortho"}, "none": None}[op["src_fft"]]
+                    model[i] = state_of(src)
+                j = op["target"] % len(live)
+                if j != i and type(live[j]) is type(src):
+                    tgt, jm = live[j], j
+                else:
+                    tgt, jm = sut(type(src), what=f"{type(src).__name__}()"), None
+                    if hasattr(tgt, "fft_settings"):
+                        tgt.fft_settings = {"n": 65536}          # as left behind by an earlier process() call
+                    if hasattr(tgt, "smoothing") and isinstance(tgt.smoothing, dict):
+                        tgt.smoothing["note"] = "left over"
+                path = os.path.join(tmp, f"l{k}.json")
+                sut(src.save, path, what="save")
+                sut(tgt.load, path, what="load")
+                a_, b_ = state_of(src), state_of(tgt)
+                if a_ != b_:
+                    keys = [q for q in set(a_) | set(b_) if a_.get(q) != b_.get(q)]
+                    raise Violation(f"{step}: loading a saved {type(src).__name__} into an existing object leaves it different from the saved one in {keys}: "
+                                    f"{[(str(a_.get(q))[:70], str(b_.get(q))[:70]) for q in keys][:2]}")
+                if jm is None:
+                    live.append(tgt)
+                    model.append(state_of(tgt))
+                else:
+                    model[jm] = state_of(tgt)
+                    live.append(sut(type(src), what="ctor"))      # keep the pool size in step with the generator
+                    model.append(state_of(live[-1]))
+                labels.append("load-into-existing")
+                check_all(step, touched=jm)
             elif op["op"] == "process":
                 i = op["obj"] % len(live)
                 o = live[i]
